@@ -202,14 +202,13 @@ _CB_STUBS = ["alloc::fmt::format -> fresh one-character string (message text nev
              "chrono::DateTime::parse_from_rfc3339 and the additional-control evaluators of validator/control.rs return Err "
              "(statically reachable from every visitor callback; never reached with these documents)"]
 _QUICK_CB = {
-    "C01": ["c00_ident_json_uint_int", "c00_ident_json_nint_int", "c00_ident_json_int_int", "c00_ident_json_int_big",
-            "c00_ident_json_true_bool", "c00_ident_json_nil_null", "c00_value_json_eq", "c00_value_json_lt", "c00_value_json_ge",
-            "c09_range_json_int", "c00_value_json_neg_vs_uint", "c09_range_json_mixed"],
+    "C01": ["c00_ident_json_uint_int", "c00_ident_json_nint_int", "c00_ident_json_int_big", "c00_ident_json_true_bool",
+            "c00_value_json_eq", "c00_value_json_lt", "c09_range_json_int", "c00_value_json_neg_vs_uint", "c09_range_json_mixed"],
     "C02": ["c00_ident_cbor_uint_int", "c00_ident_cbor_nint_int", "c00_ident_cbor_number_float", "c00_ident_cbor_true_bool",
             "c00_value_cbor_eq", "c00_value_cbor_lt", "c09_range_cbor_int"],
     "C04": ["c00_ident_json_uint_int", "c00_ident_cbor_uint_int", "c00_ident_json_nint_int", "c00_ident_cbor_nint_int",
-            "c00_value_json_eq", "c00_value_cbor_eq", "c00_value_json_lt", "c00_value_cbor_lt", "c09_range_json_int",
-            "c09_range_cbor_int", "c00_value_json_neg_vs_uint", "c09_range_json_mixed"],
+            "c00_value_json_lt", "c00_value_cbor_lt", "c09_range_json_int", "c09_range_cbor_int",
+            "c00_value_json_neg_vs_uint", "c09_range_json_mixed"],
     "C09": ["c09_occ_repeating_cbor", "c09_occ_repeating_json", "c09_range_cbor_int", "c09_range_json_int",
             "c00_value_cbor_ne", "c00_value_json_ne", "c00_ident_cbor_nint_int", "c00_ident_json_uint_int"],
 }
